@@ -74,8 +74,11 @@ def gen_plan(seed: int, tier: str) -> dict:
             op = {"op": "add_listener", "name": r.choice(["L3", "L4"]), "raises": r.random() < 0.3}
         elif x < 0.89:
             op = {"op": "remove_listener", "name": r.choice(["L1", "L2", "L3", "L4"])}
-        elif x < 0.95:
+        elif x < 0.93:
             op = {"op": "get", "ids": [[1, 10]]}
+        elif x < 0.95:
+            ids = sorted(r.sample(subs_pool, r.choice([1, 2])))
+            op = {"op": "refuse_ev", "ids": [list(i) for i in ids], "on": r.random() < 0.65, "status": r.choice([-70402, -70403, -70412])}
         else:
             op = {"op": "desc_update", "addrs": ["10.0.0.1"], "s": r.randrange(1, 5)}
         op["t"] = t
